@@ -122,3 +122,33 @@ Lemma units_commute v : 0 < v ->
 Proof. intros Hv. unfold wavelength2frequency, frequency2wavelength, wavenumber2frequency, frequency2wavenumber,
   wavenumber2wavelength, wavelength2wavenumber. fold c. repeat split; field; lra. Qed.
 End Planck.
+
+(* ---------- planck / rayleighjeans -> 1 as x = h f / k T -> 0 ---------- *)
+Lemma planck_over_rj f T : 0 < f -> 0 < T ->
+  planck f T / rayleighjeans f T = xarg f T / (exp (xarg f T) - 1).
+Proof. intros Hf HT. rewrite planck_rj by assumption. pose proof (rj_pos f T Hf HT).
+  pose proof (expm1_pos _ (xarg_pos f T Hf HT)). field. split; lra. Qed.
+
+Lemma planck_rj_limit eps : 0 < eps -> exists d, 0 < d /\
+  forall f T, 0 < f -> 0 < T -> xarg f T < d -> Rabs (planck f T / rayleighjeans f T - 1) < eps.
+Proof. intros He. exists (Rmin eps 1). split; [apply Rmin_glb_lt; lra|].
+  intros f T Hf HT Hx. pose proof (Rmin_l eps 1). pose proof (Rmin_r eps 1).
+  pose proof (xarg_pos f T Hf HT) as Hx0. pose proof (rj_pos f T Hf HT) as Hr.
+  pose proof (planck_le_rj f T Hf HT) as Hu. assert (Hx1 : xarg f T < 1) by lra.
+  pose proof (planck_ge_rj f T Hf HT Hx1) as Hl.
+  assert (Hq1 : planck f T / rayleighjeans f T < 1) by (apply Rlt_div_l; lra).
+  assert (Hq2 : 1 - xarg f T < planck f T / rayleighjeans f T) by (apply Rlt_div_r; lra).
+  apply Rabs_def1; lra. Qed.
+
+(* the same limit in the variable x alone *)
+Lemma x_over_expm1_limit eps : 0 < eps -> exists d, 0 < d /\
+  forall x, 0 < x < d -> Rabs (x / (exp x - 1) - 1) < eps.
+Proof. intros He. exists (Rmin eps 1). split; [apply Rmin_glb_lt; lra|].
+  intros x [Hx0 Hx]. pose proof (Rmin_l eps 1). pose proof (Rmin_r eps 1).
+  assert (Hep : 1 + x < exp x) by (apply exp_ineq1; lra).
+  assert (Hm : 1 - x < exp (- x)) by (replace (1 - x) with (1 + - x) by ring; apply exp_ineq1; lra).
+  assert (Hex : exp x * exp (- x) = 1) by (rewrite <- exp_plus; replace (x + - x) with 0 by ring; apply exp_0).
+  assert (Hq1 : x / (exp x - 1) < 1) by (apply Rlt_div_l; lra).
+  assert (Hq2 : 1 - x < x / (exp x - 1)).
+  { apply Rlt_div_r; [lra|]. assert ((1 - x) * exp x < 1) by nra. nra. }
+  apply Rabs_def1; lra. Qed.
